@@ -354,8 +354,37 @@ def gamma(pred: Val, a: Val, b: Val) -> Val:
         return a if pred.v else b
     if isinstance(a, Num) and isinstance(b, Num) and (a.length is None) == (b.length is None) and (
             a.length is None or a.length == b.length):
+        mm = _minmax_form(pred, a, b)
+        if mm is not None:
+            return Num(mm, a.length, a.kind if a.kind == b.kind else 'unknown')
         return Num(sym.A('gamma', pred, a.r, b.r), a.length, a.kind if a.kind == b.kind else 'unknown')
     return Gam(pred, a, b)
+
+
+def minmax_atom(head: str, rs) -> Rat:
+    """symmetric min/max of scalars: operands ordered by printed form"""
+    rs = sorted(rs, key=sym.show)
+    acc = rs[0]
+    for r in rs[1:]:
+        acc = sym.A(head + '2', acc, r)
+    return acc
+
+
+def _minmax_form(pred: Val, a: 'Num', b: 'Num'):
+    """(x < c ? c : x) == max(x, c);  (x < c ? x : c) == min(x, c)  (same for the negated test)"""
+    neg = False
+    q = pred
+    if isinstance(q, P) and q.op == 'not':
+        q, neg = q.args[0], True
+    if not (isinstance(q, P) and q.op == '<' and all(isinstance(t, Num) and t.length is None for t in q.args)):
+        return None
+    x, c = q.args[0].r, q.args[1].r
+    t, e = (b.r, a.r) if neg else (a.r, b.r)
+    if t == c and e == x:
+        return minmax_atom('max', [x, c])
+    if t == x and e == c:
+        return minmax_atom('min', [x, c])
+    return None
 
 
 def arr_param(label: str, kind='ndarray', length: Optional[Rat] = None) -> Num:
@@ -371,7 +400,10 @@ def term_as_num(t: Val, array: bool, kind=None) -> Num:
     """coerce an opaque term to a numeric value (array element-wise or scalar)"""
     ref = Ref('$t', t)
     if array:
-        return Num(sym.A('el', ref, sym.idx()), sym.A('Len', ref), kind or 'ndarray')
+        length = sym.A('Len', ref)
+        if isinstance(t, Term) and t.head == 'listcomp' and len(t.args) == 2 and isinstance(t.args[1], Num):
+            length = t.args[1].r
+        return Num(sym.A('el', ref, sym.idx()), length, kind or 'ndarray')
     return Num(sym.A('val', ref))
 
 
